@@ -17,11 +17,13 @@ vars == <<i, k, s, m, nv>>
 Init == i = 1 /\ k = 1 /\ s = SInit /\ m = MInit /\ nv = 0
 
 \* total: a malformed observation (wrong length, codes out of range) is a verdict, never a crash
-WellFormed(op, ob) == /\ Len(op) = 4 /\ op[1] \in 1..14
+WellFormed(op, ob) == /\ Len(op) = 4 /\ op[1] \in 1..16
                       /\ Len(ob) >= 3 + 2 * NP
                       /\ \A j \in 1..NP : ob[3 + j] \in {0, 1}
                       /\ (op[1] \in {3, 4, 5, 6, 7, 8, 9} => op[2] \in 1..NP)
                       /\ (op[1] = 2 => Len(m) > 1 /\ Len(s.frames) > 1)
+                      /\ (op[1] = 15 => op[2] \in {2, 3} /\ op[3] < 81 /\ op[4] \in {0, 1})
+                      /\ (op[1] = 16 => Len(m) = 1 /\ Len(s.frames) = 1)
 Step(row) ==
    LET op == row.ops[k]
        ob == row.obs[k]
